@@ -57,6 +57,7 @@ func (t *messageTransformSubscriberDecorator) Subscribe(ctx context.Context, top
 	out := make(chan *Message)
 	t.subscribeWgLock.Lock()
 	t.subscribeWg.Add(1)
+	verifhook.At("decorator.subscribe.added", verifhook.Name(ctx), verifhook.Ptr(t))
 	t.subscribeWgLock.Unlock()
 	go func() {
 		for msg := range in {
@@ -80,10 +81,13 @@ func (t *messageTransformSubscriberDecorator) Subscribe(ctx context.Context, top
 
 func (t *messageTransformSubscriberDecorator) Close() error {
 	err := t.sub.Close()
+	verifhook.At("decorator.close.inner_closed", verifhook.Ptr(t))
 
 	t.closingOnce.Do(func() { close(t.closing) })
+	verifhook.At("decorator.close.signalled", verifhook.Ptr(t))
 	t.subscribeWgLock.Lock()
 	t.subscribeWg.Wait()
+	verifhook.At("decorator.close.waited", verifhook.Ptr(t))
 	t.subscribeWgLock.Unlock()
 	return err
 }
